@@ -30,3 +30,4 @@ for pid in pids:
         else: print("NO PROPS for",pid)
 PY
 git status --short | grep -E "^(UU|AA|U|.U)" | head
+python3 bin/clean_findings.py
